@@ -66,6 +66,23 @@ def strings(rnd, n):
     return out
 
 
+UWS = ["\x0b", "\x0c", "\x1c", "\x1d", "\x1e", "\x1f", "\x85", "\xa0", "\u1680", "\u2000", "\u2003", "\u2009", "\u200a", "\u2028", "\u2029", "\u202f",
+       "\u205f", "\u3000", "\u200b", "\ufeff"]
+
+
+def unsupported_blank_variants(rnd, s):
+    """texts over the supported alphabet except for ONE blank-like character that the tokenizer does not support (Unicode
+    whitespace, zero-width space, BOM), placed next to a supported blank, at either end, or inside a token run"""
+    u = rnd.choice(UWS)
+    b = rnd.choice([" ", "\t", "\r", "\n", "  "])
+    i = rnd.randrange(len(s) + 1)
+    out = [s[:i] + b + u + s[i:], s[:i] + u + b + s[i:], s[:i] + u + s[i:], u + s, s + b + u]
+    if " " in s:
+        out.append(s.replace(" ", " " + u, 1))
+        out.append(s.replace(" ", u, 1))
+    return out
+
+
 def space_variants(rnd, s):
     """texts that differ from s only by blanks: inserted inside digit runs / letter runs, or removed"""
     out = []
